@@ -31,7 +31,10 @@ def rule_no_next(ctx):
     (`next(producer(...))` would take an underrun object for the data)."""
     fam = G.family(ctx, 'off')
     n = 0
-    for f in sorted(fam.members, key=lambda f: f.qualname):
+    # every function of the codec modules, not only today's family members: a function whose only producer call is
+    # wrapped in next() is no longer a member by the fixpoint, and is exactly what this rule is about
+    scope = set(fam.members) | set(f for f in ctx.prog.all_functions() if '.codec.' in f.module.name and '.native.' not in f.module.name and f.is_generator)
+    for f in sorted(scope, key=lambda f: f.qualname):
         for c in walk_own(f.node):
             if not isinstance(c, ast.Call):
                 continue
